@@ -5,7 +5,11 @@ FAMILIES = {"strpool": dict(src="strpool.cpp")}
 
 PROPS = {
     "C04": dict(
-        family="strpool", theorems=[],
+        family="strpool", theorems=T("C04", "const_frame", "results_fresh", "independent", "value_changes_only_by_mutator", "never_faults",
+                                     "temporaries_gone", "progress"),
+        partial="what a const operation computes is a parameter of this model (it is the subject of C06-C14); the theorems are about where results live and "
+                "what else is touched. The value-parametric operations (K/V/Q lines) are tied to the code by the snapshot judge, the modelled ones (construction, "
+                "copy, move, assignment, set, +=, clear) by exact model correspondence",
         rule="histories of ST::string operations over a pool of 8 strings + 1 char_buffer in raw storage with a full snapshot (size, bytes, terminator, storage class, "
              "data-pointer stability) of every live object after every step: every const/query/vector operation (about 90 overloads) on sources of every size class "
              "(0, 1, limit-1, limit, limit+1, 3*limit) incl. result-equals-source and self-referential calls, each followed by mutation/destruction of source and result in "
@@ -13,7 +17,9 @@ PROPS = {
         exhaustive={"quick": False, "thorough": False},
     ),
     "C18": dict(
-        family="strpool", theorems=[],
+        family="strpool", theorems=T("C18", "strong_guarantee", "nothing_leaked", "usable_after", "setText_throws_iff", "appendChar_throws_iff"),
+        partial="exceptions raised while a value is being computed by operations modelled elsewhere (hex/base64 decode, format, Latin-1 conversion) enter this model "
+                "as 'throws before any result object exists'; that this is where they are raised is checked by the correspondence (snapshots before/after), not proved",
         rule="every throwing entry point (set / constructors / operator= from malformed UTF-8, UTF-16, UTF-32 under check_validity; set(char_buffer&&) and set(const "
              "char_buffer&) with a pool buffer as lvalue and rvalue argument; += of malformed text and of code points above U+10FFFF (surrogate values must not throw); "
              "operator+ with them; to_latin_1 without substitution; hex/base64 decode of bad text; ST::format with bad format strings and missing arguments) x target size "
@@ -24,10 +30,22 @@ PROPS = {
 }
 
 MANIFEST_TEXT = {
-    "C18": dict(text="(under construction) failed operations on the string-level object machine; snapshots before/after every throwing call",
-                design_ref="DESIGN.md section 3, C18", note="see evidence",
+    "C18": dict(text="Theorems (any history, any target/argument size class): when a string-level operation throws, the exception is not bad_alloc and every "
+                     "object - target, lvalue arguments and the rvalue argument of set(char_buffer&&) / the char_buffer&& constructor - is the very same object "
+                     "with the same value; the invariant holds afterwards (nothing leaked: every block owned by exactly one live non-temporary object), every "
+                     "precondition that held before still holds, and the state is reachable (usable_after); set/constructor throw exactly under check_validity on "
+                     "rejected text, += char exactly above U+10FFFF. Tied to the code by snapshots before/after every throwing entry point x size classes.",
+                design_ref="DESIGN.md section 3, C18",
+                note="Trusted as C04. Exceptions of value computations modelled elsewhere (codec, format) are parameters: 'thrown before any result exists'.",
                 technique="Lean 4 proof over a hand model (strong exception guarantee of each throwing do-block) + differential correspondence under ASan/LSan"),
-    "C04": dict(text="(under construction) string-level object machine on top of the buffer machine; histories compared step by step",
-                design_ref="DESIGN.md section 3, C04/C05", note="see evidence",
+    "C04": dict(text="Theorems (every finite history of string-level operations, completed or thrown, over any pool; every small-string limit L > 0): a const "
+                     "operation leaves every live object's bytes, size and data pointer unchanged (const_frame); two live objects never share storage, results "
+                     "included (results_fresh, from C05's invariant); an operation changes nothing outside its targets - the object assigned/set/appended/cleared/"
+                     "constructed/destroyed or moved from (independent, value_changes_only_by_mutator); no operation faults; temporaries never survive. All follow from "
+                     "one specification theorem (sop_spec) proved by composing the buffer-level step theorem of C05. Tied to the code by histories over ~90 overloads "
+                     "with full snapshots after every step under ASan/LSan.",
+                design_ref="DESIGN.md section 3, C04/C05",
+                note="Trusted: Lean kernel + 3 standard axioms; Model/StrPool.lean as the transcription of st_string.h's ownership behaviour; the strpool harness. The "
+                     "values computed by const operations are parameters here (C06-C14 own them).",
                 technique="Lean 4 proof over a hand model (frame + freshness theorems on the buffer machine) + differential correspondence under ASan/LSan"),
 }
